@@ -151,3 +151,30 @@ def make_names_only(rng, base="PARSE"):
         notes.append(("repoint", res, a, b))
     body_end = names.rindex("</")
     return names[:body_end] + "\n".join(tail) + "\n" + names[body_end:], notes
+
+
+def make_names_variant(rng, base="AMBER"):
+    """A user .names file for the bundled parameter file `base` that *lacks* parts of the bundled naming map (whole
+    <residue> sections or single <atom> rules removed) and may add re-pointing rules: the canonical atoms that lost
+    their rule have no entry under this map."""
+    names, notes = make_names_only(rng, base) if rng.random() < 0.5 else \
+        ((DAT / f"{base}.names").read_text(encoding="utf-8"), [])
+    notes = list(notes)
+    sections = list(re.finditer(r"[ \t]*<residue>.*?</residue>[ \t]*\n?", names, re.S))
+    # only sections of the bundled part (added rules sit at the end and stay)
+    nb = (DAT / f"{base}.names").read_text(encoding="utf-8").count("<residue>")
+    sections = sections[:nb]
+    drop = rng.sample(sections, min(len(sections), rng.randint(1, 2)))
+    for mt in sorted(drop, key=lambda x: -x.start()):
+        sec = mt.group(0)
+        atoms = list(re.finditer(r"[ \t]*<atom>.*?</atom>[ \t]*\n?", sec, re.S))
+        rname = re.search(r"<name>(.*?)</name>", sec).group(1)
+        if atoms and rng.random() < 0.5:
+            a = rng.choice(atoms)
+            new = sec[:a.start()] + sec[a.end():]
+            notes.append(("drop-atom-rule", rname, re.search(r"<name>(.*?)</name>", a.group(0)).group(1)))
+        else:
+            new = ""
+            notes.append(("drop-section", rname))
+        names = names[:mt.start()] + new + names[mt.end():]
+    return names, notes
